@@ -168,13 +168,8 @@ class ReplacementFrontend(ConstrainedFrontend):
         ) = s
 
         super().__setstate__(base_state)
-        self._replacements = {}
-        self._replaced_asts = {}
-        for old, k, new in replacements:
-            if old is not None:
-                k = old.hash()
-                self._replaced_asts[k] = old
-            self._replacements[k] = new
+        self._replaced_asts = {old.hash(): old for old, _, _ in replacements if old is not None}
+        self._replacements = {(k if old is None else old.hash()): new for old, k, new in replacements}
         self._replacement_cache = dict(self._replacements)
 
     #
